@@ -32,7 +32,7 @@ func ZZ_C03_fp_coinbase() {
 	b := &BlockChain{chainParams: p, state: st}
 	arb := &zzC11Arbiters{v2Active: nd.U32("v2ActiveHeight"), finalChange: common.Fixed64(nd.I64("finalChange"))}
 	arb.roundReward = map[common.Uint168]common.Fixed64{}
-	for i := 0; i < nd.Choose("roundRewards", 2); i++ {
+	for i, zzn := 0, nd.Choose("roundRewards", 2); i < zzn; i++ {
 		arb.roundReward[common.Uint168{0x21, byte(i)}] = common.Fixed64(nd.I64("roundReward"))
 	}
 	old := DefaultLedger
